@@ -216,8 +216,11 @@ func c02fEvaluate(r *c02fRun) (o c02fOut) {
 			case "MD5":
 				toks = append(toks, "M:"+hx(m.raw))
 			case "EXIT":
-				ns, _ := parseSaved(string(m.raw))
-				toks = append(toks, "X:"+c02fHexNames(ns))
+				if ns, ok := parseSaved(string(m.raw)); ok {
+					toks = append(toks, "X:"+c02fHexNames(ns))
+				} else {
+					toks = append(toks, "X:!")
+				}
 			case "KEEP":
 				toks = append(toks, "K")
 				continue
@@ -491,8 +494,12 @@ func c02fEvaluate(r *c02fRun) (o c02fOut) {
 						}
 						acks = append(acks, fmt.Sprintf("S:%s:%s:%d", hx(m.raw), jn, m.jsSize))
 					case "EXIT":
-						ns, _ := parseSaved(string(m.raw))
-						acks = append(acks, "X:"+c02fHexNames(ns))
+						// "!" = the text is not a "Saved ..." message (damaged): what the server then shows is no success
+						if ns, ok := parseSaved(string(m.raw)); ok {
+							acks = append(acks, "X:"+c02fHexNames(ns))
+						} else {
+							acks = append(acks, "X:!")
+						}
 					case "KEEP":
 						acks = append(acks, "K")
 					case "FAIL":
